@@ -212,6 +212,19 @@ var c11PlainQueries = []string{
 	"SELECT id FROM `distinct=>t`",
 	"SELECT id, tags FROM t ORDER BY id DESC",
 	"SELECT id, a FROM t ORDER BY s, a DESC LIMIT 3 OFFSET 1",
+	// FUSE of a column (the fused object is the caller's), unaliased join sides (rows are the caller's), INTO
+	"SELECT FUSE(o), * FROM t",
+	"SELECT FUSE(o), id FROM t",
+	"SELECT *, FUSE(o) FROM t",
+	"SELECT id, (SELECT FUSE(o), * FROM dual) AS sub FROM t",
+	"SELECT * FROM t LEFT JOIN u y ON id = y.id",
+	"SELECT * FROM t x RIGHT JOIN u ON x.id = id",
+	"SELECT * FROM t PARALLEL LEFT JOIN u y ON id = y.id",
+	"SELECT * FROM t LEFT JOIN u y ON id < y.id",
+	"SELECT * FROM t JOIN u ON s = b",
+	"SELECT * FROM t x LEFT JOIN u y ON x.id < y.id INTO j",
+	"SELECT * FROM t x HASH_JOIN u y ON x.id = y.id INTO j",
+	"SELECT * FROM t x RIGHT JOIN u y ON x.id = y.id INTO j",
 	// WITH in sibling / nested statements
 	"WITH c AS (SELECT id, a FROM t) SELECT id FROM c UNION ALL SELECT id FROM u",
 	"WITH c AS (SELECT id FROM t) SELECT id FROM c UNION SELECT id FROM c",
@@ -264,9 +277,9 @@ func genC11(t *rapid.T) *Bundle {
 func corpusC11() []*Bundle {
 	doc := map[string]any{
 		"t": []any{
-			map[string]any{"id": 1.0, "a": 10.0, "s": "x", "f": true, "n": []any{map[string]any{"v": 1.0, "w": "p"}, map[string]any{"v": 2.0, "w": "q"}}, "tags": []any{"x", "x", "y", "z"}, "grid": []any{[]any{1.0, 2.0}, []any{3.0, 4.0}}},
-			map[string]any{"id": 2.0, "a": 20.0, "s": "xy", "f": false, "n": []any{map[string]any{"v": 3.0, "w": "p"}}, "tags": []any{"y", "y"}, "grid": []any{[]any{5.0, 6.0}}},
-			map[string]any{"id": 3.0, "a": 30.0, "s": "x", "f": true, "n": []any{}, "tags": []any{}, "grid": []any{}},
+			map[string]any{"id": 1.0, "a": 10.0, "s": "x", "f": true, "n": []any{map[string]any{"v": 1.0, "w": "p"}, map[string]any{"v": 2.0, "w": "q"}}, "tags": []any{"x", "x", "y", "z"}, "grid": []any{[]any{1.0, 2.0}, []any{3.0, 4.0}}, "o": map[string]any{"p": 1.0, "q": "k"}},
+			map[string]any{"id": 2.0, "a": 20.0, "s": "xy", "f": false, "n": []any{map[string]any{"v": 3.0, "w": "p"}}, "tags": []any{"y", "y"}, "grid": []any{[]any{5.0, 6.0}}, "o": map[string]any{"p": 2.0, "q": "m"}},
+			map[string]any{"id": 3.0, "a": 30.0, "s": "x", "f": true, "n": []any{}, "tags": []any{}, "grid": []any{}, "o": map[string]any{"p": 3.0, "q": "k"}},
 			map[string]any{"id": 1.0, "a": 10.0, "s": "x", "f": true, "n": []any{map[string]any{"v": 1.0, "w": "p"}, map[string]any{"v": 2.0, "w": "q"}}, "tags": []any{"x", "x", "y", "z"}, "grid": []any{[]any{1.0, 2.0}, []any{3.0, 4.0}}},
 		},
 		"u":    []any{map[string]any{"id": 1.0, "b": "k", "g": true}, map[string]any{"id": 3.0, "b": "m", "g": false}},
